@@ -600,10 +600,14 @@ pub fn history(mode: &str, idx: u64, rng: &mut Rng, thorough: bool, timeout_ms: 
             let mut ctx = Ctx::new(&scalar, &kind, &hint, timeout_ms);
             ctx.header(idx, &scalar, &hint, mode, &fam.label());
             if rng.chance(200) {
-                let n = len(rng, 0, 14) as usize;
+                let n = if rng.chance(400) { 17 + rng.below(30) as usize } else { len(rng, 0, 14) as usize };
                 let kind = if rng.chance(500) { "plain" } else { "stable" };
                 let t = bulk_op(rng, &ctx, &fam, kind, n, false);
                 ctx.op(t);
+                if rng.chance(350) {
+                    // start over on a used triangulation: clear, then refill and query
+                    ctx.op(vec![s("clear")]);
+                }
             }
             let n = len(rng, 4, 30);
             for _ in 0..n {
@@ -643,6 +647,55 @@ pub fn history(mode: &str, idx: u64, rng: &mut Rng, thorough: bool, timeout_ms: 
                     break;
                 }
                 mutate_cdt(rng, &mut ctx, &fam, &mut counter, mode == "split");
+            }
+            ctx.finish();
+        }
+        // small scope: at most ~6 vertices on a 3x3 grid or a line, insert/remove heavy, every
+        // query class after every step: the empty / single / collinear / two-dimensional transitions
+        "small" => {
+            let (scalar, kind, hint) = instance(rng, &["dt", "dt", "cdt"], true, &ALL_HINTS);
+            let fam = Fam::choose(rng, &["grid", "line", "line"]);
+            let fam = if fam.name == "grid" { Fam { name: s("grid"), n: 3, centers: Vec::new(), k: 0 } } else { fam };
+            let mut ctx = Ctx::new(&scalar, &kind, &hint, timeout_ms);
+            ctx.header(idx, &scalar, &hint, mode, &fam.label());
+            let n = len(rng, 8, 30);
+            for _ in 0..n {
+                if ctx.dead {
+                    break;
+                }
+                let nv = ctx.tri.nv() as u64;
+                let r = rng.below(100);
+                counter += 1;
+                if nv == 0 || (r < 45 && nv < 7) {
+                    let p = fam.point(rng, &ctx);
+                    ctx.op(ins_op(&ctx, p, counter));
+                } else if r < 80 {
+                    // removals: prefer the ends and the most recent vertices
+                    let i = match rng.below(4) {
+                        0 => 0,
+                        1 => nv - 1,
+                        _ => rng.below(nv),
+                    };
+                    let op = if kind == "cdt" && rng.chance(300) { "trm" } else { "rm" };
+                    ctx.op(vec![s(op), i.to_string()]);
+                } else if r < 84 {
+                    ctx.op(vec![s("clear")]);
+                } else if r < 90 && kind == "cdt" && nv >= 2 {
+                    let a = rng.below(nv);
+                    let b = rng.below(nv);
+                    ctx.op(vec![s("trycon"), a.to_string(), b.to_string()]);
+                } else {
+                    let p = fam.point(rng, &ctx);
+                    ctx.op(ins_op(&ctx, p, counter));
+                }
+                for c in ["hull", "loc", "nn", "line", "lineh", "rect", "circ", "bary", "nnw", "vor"] {
+                    if ctx.dead {
+                        break;
+                    }
+                    if rng.chance(300) {
+                        query(rng, &mut ctx, &fam, c);
+                    }
+                }
             }
             ctx.finish();
         }
